@@ -27,7 +27,7 @@ fn plan(cfg: &RunCfg) -> EncPlan {
     p.addr7 = false;
     p.len_max = 64;
     p.max_body = 249;
-    p.random_per_form = cfg.pick(2000, 300_000);
+    p.random_per_form = cfg.pick(12_000, 300_000);
     p.param_sweep_reps = cfg.pick(1, 10) as u32;
     p.addr_sweep_reps = cfg.pick(2, 40) as u32;
     p.pair_forms = if cfg.thorough() {
@@ -87,7 +87,7 @@ fn run(cfg: &RunCfg) -> Report {
     let mut rep = Report::new();
     let p = plan(cfg);
     for_each_call(cfg, "c05", &p, &mut |c, _| check(c, &mut rep));
-    let n = if cfg.is_small() { 200 } else { cfg.pick(40_000, 4_000_000) };
+    let n = if cfg.is_small() { 200 } else { cfg.pick(200_000, 4_000_000) };
     let mut rrep = Report::new();
     for_each_response(cfg, "c05-responder", n, &mut |req, resp, who, rep| check_response(req, resp, who, rep), &mut rrep);
     rep.merge(rrep);
